@@ -1011,6 +1011,7 @@ func Jobs(prop, tier string) []*Job {
 		j.Index = i
 		if strings.Contains(j.Name, "candidate-crash") || strings.Contains(j.Name, "pagination") || strings.Contains(j.Name, "prevote-crash") {
 			j.Weight = 5
+			j.MinSeconds = 20
 		}
 	}
 	return jobs
